@@ -6,6 +6,8 @@
 #define K_ACK 2u
 #define K_REQ 3u
 #define K_OTHER 4u
+#define K_RESUME 5u
+#define K_ENABLE 6u
 struct c09blk { QAD h; uint32_t magic; uint32_t kind; uint32_t val; uint8_t data[8]; };
 #define C09_MAGIC 0xC09B10C5u
 static QAD *c09_blk(uint32_t kind, uint32_t val) { struct c09blk *b = malloc(sizeof(struct c09blk)); ASSUME(b != 0);
@@ -35,12 +37,19 @@ static void c09_classify(char *w, char *ret) {
   struct dnode *r = x->root; uint32_t kind = K_OTHER, val = 0;
   if (c09_lit(&r->ns, "urn:xmpp:sm:3", 13) && r->nch == 0 && r->text->f1 == 0) {
     if (c09_lit(&r->tag, "r", 1) && r->nattr == 0) kind = K_REQ;
-    else if (c09_lit(&r->tag, "a", 1)) { QAD *hn; _ZN7QString17fromLatin1_helperEPKci((char*)&hn, (char*)"h", 1); int i = dn_attr(r, hn);
-      if (i >= 0 && numS(r->av[i]).isnum && !numS(r->av[i]).neg && numS(r->av[i]).mag <= 0xffffffffULL && r->nattr == 1) { kind = K_ACK; val = (uint32_t)numS(r->av[i]).mag; } } }
+    else if (c09_lit(&r->tag, "enable", 6)) kind = K_ENABLE;
+    else if (c09_lit(&r->tag, "a", 1) || c09_lit(&r->tag, "resume", 6)) { uint8_t isack = c09_lit(&r->tag, "a", 1); QAD *hn; _ZN7QString17fromLatin1_helperEPKci((char*)&hn, (char*)"h", 1); int i = dn_attr(r, hn);
+      if (i >= 0 && numS(r->av[i]).isnum && !numS(r->av[i]).neg && numS(r->av[i]).mag <= 0xffffffffULL && r->nattr == (isack ? 1u : 2u)) { kind = isack ? K_ACK : K_RESUME; val = (uint32_t)numS(r->av[i]).mag; } } }
   *(QAD**)ret = c09_blk(kind, val); }
 void _ZN5QXmpp7Private12serializeXmlINS0_5SmAckEEE10QByteArrayRKT_(char *ret, char *pkt) { char *w[2]; vp_writer_init((char*)w); F_vp_c09_toxml_ack(pkt, (char*)w); c09_classify((char*)w, ret); }
 void _ZN5QXmpp7Private12serializeXmlINS0_9SmRequestEEE10QByteArrayRKT_(char *ret, char *pkt) { char *w[2]; vp_writer_init((char*)w); F_vp_c09_toxml_req(pkt, (char*)w); c09_classify((char*)w, ret); }
+void _ZN5QXmpp7Private12serializeXmlINS0_8SmResumeEEE10QByteArrayRKT_(char *ret, char *pkt) { char *w[2]; vp_writer_init((char*)w); F_vp_c09_toxml_resume(pkt, (char*)w); c09_classify((char*)w, ret); }
+void _ZN5QXmpp7Private12serializeXmlINS0_8SmEnableEEE10QByteArrayRKT_(char *ret, char *pkt) { char *w[2]; vp_writer_init((char*)w); F_vp_c09_toxml_enable(pkt, (char*)w); c09_classify((char*)w, ret); }
 uint8_t vp_c09_false(void) { return 0; }
+/* error condition named inside <failed/> (QXmppStanza.cpp is not linked): irrelevant for C09 - any optional<Condition> (value 0..21 in the low word, engaged flag in bit 32) */
+uint64_t _ZN5QXmpp7Private19conditionFromStringERK7QString(char *s) { uint8_t has = vp_bool(); uint32_t c = vp_u32(); ASSUME(c <= 21); return has ? ((uint64_t)1 << 32) | c : 0; }
+/* logging signal of QXmppLoggable (moc): no observable effect */
+void _ZN13QXmppLoggable10logMessageEN11QXmppLogger11MessageTypeERK7QString(char *self, uint32_t type, char *msg) { }
 #endif
 
 /* ---- class-level model of QMap<unsigned, QXmppPacket>: ordered array with value semantics (what implicit sharing implements).
